@@ -131,6 +131,26 @@ pub open spec fn bitmap_data_view() -> MV {
                   ("bitmapComprHdr"@, MV::Dyn(Box::new(cd_header_view()), OV::Size("bitmapDataStream"@, 0))),
                   ("bitmapDataStream"@, MV::Bytes(Seq::empty()))])
 }
+// ---------------- proved helper lemmas: the bytes of trame![a, b, ..] grow by ser(x) with every push
+pub proof fn lemma_ser_seq_push_len(a: Seq<MV>, m: MV, i: int)
+    requires 0 <= i <= a.len()
+    ensures ser_seq_from(a.push(m), i).len() == ser_seq_from(a, i).len() + ser(m).len()
+    decreases a.len() - i
+{
+    reveal_with_fuel(ser_seq_from, 2);
+    if i < a.len() {
+        lemma_ser_seq_push_len(a, m, i + 1);
+        assert(a.push(m)[i] == a[i]);
+    } else {
+        assert(a.push(m)[i] == m);
+    }
+}
+pub broadcast proof fn lemma_trame_push_ser_len(s: Seq<Field>, f: Field)
+    ensures ser_seq(trame_view(#[trigger] s.push(f))).len() == ser_seq(trame_view(s)).len() + ser(f.fview()).len()
+{
+    lemma_trame_view_push(s, f);
+    lemma_ser_seq_push_len(trame_view(s), f.fview(), 0);
+}
 /// TS_CONFIRM_ACTIVE_PDU body after the share control header (2.2.1.13.2.1): lengthCombinedCapabilities counts numberCapabilities + pad2Octets + the sets
 pub open spec fn confirm_active_bytes(share_id: u32, source: Seq<u8>, ncaps: u16, caps: Seq<u8>) -> Seq<u8> {
     // (right-nested: the order in which Component::write concatenates, so that no sequence-associativity reasoning is needed)
@@ -168,19 +188,23 @@ builder("ts_confirm_active_pdu", "r.message", fuel=3,
                ("C04", "size", "ser(r.message.mv()).len() == 14 + %s.len() + ser_seq(%s).len()" % (OPT_SRC, OPT_CAPS))])
 builder("ts_deactivate_all_pdu", "r.message", keys=True, closures={1: size_closure("length", "sourceDescriptor")},
         extra=[(None, "type", "r.pdu_type is PdutypeDeactivateallpdu")])
-builder("share_data_header", "r.message", props=("C04", "C06", "C11"), keys=True, fuel=10,
+SDH_T2 = "(if pdu_type_2 is Some { pdu_type_2->Some_0 as u8 } else { 0x32u8 })"
+builder("share_data_header", "r.message", props=("C04", "C06", "C11"), fuel=3,
+        post=bytes_chain("r.message", ["le32(o32(share_id, 0))", "seq![0u8]", "seq![1u8]", "le16((msg.len() + 18) as u16)", "seq![%s]" % SDH_T2, "seq![0u8]", "le16(0)", "msg"], "let msg = %s;" % OPT_MSG),
         requires=["(if message is Some { message->Some_0@.len() } else { 0 }) + 18 <= 0xffff"],
         closures={1: size_closure("size", "payload", 18)},
         extra=[(None, "type", "r.pdu_type is PdutypeDatapdu"),
                ("C04,C11", "bytes", "ser(r.message.mv()) =~= share_data_bytes(o32(share_id, 0), (if pdu_type_2 is Some { pdu_type_2->Some_0 as u8 } else { 0x32u8 }), (if message is Some { message->Some_0@ } else { Seq::<u8>::empty() }))")])
 SCH_TYPE = "(if pdu_type is Some { pdu_type->Some_0 as u16 } else { 0x11u16 })"
-builder("share_control_header", "c", ret="c", props=("C04", "C06", "C11"), keys=True, fuel=6,
+builder("share_control_header", "c", ret="c", props=("C04", "C06", "C11"), keys=True, fuel=3,
         requires=["(if message is Some { message->Some_0@.len() } else { 0 }) + 6 <= 0xffff"],
         closures={1: size_closure("total", "pduMessage", 6)},
         extra=[("C04,C11", "bytes", "ser(c.mv()) =~= share_control_bytes((if pdu_type is Some { pdu_type->Some_0 as u16 } else { 0x11u16 }), o16(pdu_source, 0), (if message is Some { message->Some_0@ } else { Seq::<u8>::empty() }))"),
                ("C04,C06", "view", "c.mv() == share_control_view(%s, o16(pdu_source, 0), %s)" % (SCH_TYPE, OPT_MSG))],
-        post="proof { assert(c.fields() =~= share_control_view(%s, o16(pdu_source, 0), %s)->Comp_0); }" % (SCH_TYPE, OPT_MSG))
+        post=bytes_chain("c", ["le16((msg.len() + 6) as u16)", "le16(%s)" % SCH_TYPE, "le16(o16(pdu_source, 0))", "msg"], "let msg = %s;" % OPT_MSG)
+             + " proof { assert(c.fields() =~= share_control_view(%s, o16(pdu_source, 0), %s)->Comp_0); }" % (SCH_TYPE, OPT_MSG))
 builder("ts_synchronize_pdu", "r.message", props=("C04", "C06", "C12", "C03"), fuel=4,
+        post="proof { let f = r.message.fields(); assert(f[1].1 == MV::Opt(Some(Box::new(MV::U16(o16(target_user, 0), true))))); assert(ser(f[1].1) =~= le16(o16(target_user, 0))); assert(ser(f[0].1) =~= le16(1)); }",
         extra=[(None, "type", "r.pdu_type is Pdutype2Synchronize"), ("C04,C12,C03", "bytes", "ser(r.message.mv()) =~= sync_body(o16(target_user, 0))")])
 builder("ts_font_list_pdu", "r.message", props=("C04", "C12", "C03"), fuel=6,
         extra=[(None, "type", "r.pdu_type is Pdutype2Fontlist"), ("C04,C12,C03", "bytes", "ser(r.message.mv()) =~= fontlist_body()")])
@@ -207,7 +231,7 @@ builder("ts_fp_update", "c", ret="c", props=("C06", "C10"), keys=True, body_sub=
         closures={1: dict(params="header: &u8", ret=MO, spec='ensures r.ov() == (if (*header >> 4) & 0x2 == 0 { OV::Skip("compressionFlags"@) } else { OV::None })'),
                   2: size_closure("size", "updateData")},
         extra=[("C06,C10", "view", "c.mv() == fp_update_view()")],
-        post="proof { assert(c.fields() =~= fp_update_view()->Comp_0); }")
+        post="proof { assert((0u8 >> 4) & 0x2 == 0) by(bit_vector); assert(c.fields() =~= fp_update_view()->Comp_0); }")
 builder("ts_cd_header", "c", ret="c", props=("C06", "C10"), keys=True, extra=[("C06,C10", "view", "c.mv() == cd_header_view()")],
         post="proof { assert(c.fields() =~= cd_header_view()->Comp_0); }")
 builder("ts_bitmap_data", "c", ret="c", props=("C06", "C10"), keys=True,
@@ -216,7 +240,7 @@ builder("ts_bitmap_data", "c", ret="c", props=("C06", "C10"), keys=True,
                   3: dict(params="header: &Component", ret=MO, spec='requires same_shape(cd_header_view(), header.mv()) ensures r.ov() == OV::Size("bitmapDataStream"@, header.fields()[1].1->U16_0 as usize)')},
         hints=[(r'MessageOption::Size\("bitmapDataStream"\.to_string\(\), cast!', 1, "proof { reveal_with_fuel(same_shape, 2); let f = header.fields(); let g = cd_header_view()->Comp_0; assert(g[1].0 == f[1].0 && g[0].0 == f[0].0 && same_shape(g[1].1, f[1].1)); assert(first_key(f, \"cbCompMainBodySize\"@) == 1); }", "at")],
         extra=[("C06,C10", "view", "c.mv() == bitmap_data_view()")],
-        post="proof { assert(c.fields() =~= bitmap_data_view()->Comp_0); }")
+        post="proof { assert(0u16 & 0x0001 == 0) by(bit_vector); assert(c.fields() =~= bitmap_data_view()->Comp_0); }")
 builder("ts_fp_update_bitmap", "r.message", props=("C06", "C10"),
         closures={1: dict(params="", ret="-> (c: Component)", spec="ensures c.mv() == bitmap_data_view()")},
         extra=[(None, "type", "r.fp_type is FastpathUpdatetypeBitmap"),
@@ -233,15 +257,20 @@ MCS_FRAME = [(None, "mcs-frame", "final(mcs).rest() == old(mcs).rest() && final(
 # the write path never reports InvalidAutomata by itself (RdpClient::try_write swallows exactly that kind)
 ERR_KIND = [(None, "error-kind", "!automata_err(r)")]
 STATE_FRAME = [(None, "state-untouched", "final(self).st() == old(self).st() && final(self).same_config(old(self))")]
-G("write_pdu", impl=r"impl Client", props=["C04", "C11", "C12", "C03"], fuel=6,
+G("write_pdu", impl=r"impl Client", props=["C04", "C11", "C12", "C03"],
   requires=WRITE_REQ + ["ser(message.message.mv()).len() + 6 <= 0x7fff"],
   ensures=MCS_FRAME + ERR_KIND + [("C04,C11,C12,C03", "one-pdu", "r is Ok ==> final(mcs).written() =~= old(mcs).written() + mcs::mcs_frame(old(mcs).uid()->Some_0, old(mcs).chans()[\"global\"@], share_control_bytes(message.pdu_type as u16, self.uid(), ser(message.message.mv())))")])
-G("write_data_pdu", impl=r"impl Client", props=["C04", "C11", "C12", "C03"], fuel=6,
+G("write_data_pdu", impl=r"impl Client", props=["C04", "C11", "C12", "C03"],
   requires=WRITE_REQ + ["ser(message.message.mv()).len() + 24 <= 0x7fff"],
   ensures=MCS_FRAME + ERR_KIND + [("C04,C11,C12,C03", "one-data-pdu", "r is Ok ==> final(mcs).written() =~= old(mcs).written() + mcs::mcs_frame(old(mcs).uid()->Some_0, old(mcs).chans()[\"global\"@], data_pdu_frame(o32(self.share(), 0), self.uid(), message.pdu_type as u8, ser(message.message.mv())))")])
-G("write_confirm_active_pdu", impl=r"impl Client", props=["C12", "C03", "C04"], fuel=6,
+G("write_confirm_active_pdu", impl=r"impl Client", props=["C12", "C03", "C04"], fuel=2,
   requires=WRITE_REQ + ["old(self).name@.len() <= 1024"],
-  ensures=MCS_FRAME + ERR_KIND + STATE_FRAME + [("C12,C03", "one-confirm-active", "r is Ok ==> exists|body: Seq<u8>| #[trigger] share_control_bytes(0x13, old(self).uid(), body).len() > 0 && final(mcs).written() =~= old(mcs).written() + mcs::mcs_frame(old(mcs).uid()->Some_0, old(mcs).chans()[\"global\"@], share_control_bytes(0x13, old(self).uid(), body))")])
+  pre="broadcast use lemma_trame_push_ser_len, axiom_utf8_len;",
+  hints=[(r"self\.write_pdu\(pdu, mcs\)", 1, """proof { let body = ser(pdu.message.mv()); assert(share_control_bytes(0x13, self.uid(), body).len() > 0);
+            assert(exists|caps: Seq<u8>| caps.len() == 376 && body == #[trigger] confirm_active_bytes(o32(self.share(), 0), utf8_bytes(self.name@), 12, caps)); }""", "before")],
+  ensures=MCS_FRAME + ERR_KIND + STATE_FRAME + [("C12,C03", "one-confirm-active", "r is Ok ==> exists|body: Seq<u8>| #[trigger] share_control_bytes(0x13, old(self).uid(), body).len() > 0 && final(mcs).written() =~= old(mcs).written() + mcs::mcs_frame(old(mcs).uid()->Some_0, old(mcs).chans()[\"global\"@], share_control_bytes(0x13, old(self).uid(), body))"),
+      # strengthening: the body is a confirm-active PDU for the announced share id whose source descriptor is the client name (UTF-8) and which carries the 12 capability sets (376 bytes with their headers)
+      ("C04,C03", "confirm-active-layout", "r is Ok ==> exists|caps: Seq<u8>| caps.len() == 376 && final(mcs).written() =~= old(mcs).written() + mcs::mcs_frame(old(mcs).uid()->Some_0, old(mcs).chans()[\"global\"@], share_control_bytes(0x13, old(self).uid(), #[trigger] confirm_active_bytes(o32(old(self).share(), 0), utf8_bytes(old(self).name@), 12, caps)))")])
 G("write_client_finalize", impl=r"impl Client", props=["C12", "C03"],
   requires=WRITE_REQ,
   ensures=MCS_FRAME + ERR_KIND + [("C12,C03", "sync-coop-request-fontlist-in-order", """r is Ok ==> ({
@@ -251,7 +280,7 @@ G("write_client_finalize", impl=r"impl Client", props=["C12", "C03"],
         + mcs::mcs_frame(u, g, data_pdu_frame(sh, self.uid(), 0x14, control_body(4)))
         + mcs::mcs_frame(u, g, data_pdu_frame(sh, self.uid(), 0x14, control_body(1)))
         + mcs::mcs_frame(u, g, data_pdu_frame(sh, self.uid(), 0x27, fontlist_body())) })""")])
-G("write_input_event", impl=r"impl Client", props=["C11", "C12"], fuel=8,
+G("write_input_event", impl=r"impl Client", props=["C11", "C12"], fuel=3,
   requires=WRITE_REQ + ["ser(event.message.mv()).len() <= 64"],
   ensures=MCS_FRAME + [("C11,C12", "error-kind", "self.st() is Data ==> !automata_err(r)")] + [("C12,C11", "gated", "!(self.st() is Data) ==> r is Err && r->Err_0 is RdpError && r->Err_0->RdpError_0.kind == RdpErrorKind::InvalidAutomata && final(mcs).written() == old(mcs).written()"),
                        ("C11", "one-input-pdu", "self.st() is Data && r is Ok ==> final(mcs).written() =~= old(mcs).written() + mcs::mcs_frame(old(mcs).uid()->Some_0, old(mcs).chans()[\"global\"@], slow_path_input(o32(self.share(), 0), self.uid(), event.event_type as u16, ser(event.message.mv())))")])
